@@ -28,6 +28,7 @@ SendFaults(e) ==
         ELSE IF Len(e.draws) # 1 THEN {"C01.key_drawn_once_per_frame"}
         ELSE IF e.draws[1][1] # 4 THEN {"C01.key_source_asked_for_4_bytes"}
         ELSE IF e.draws[1][2] # key THEN {"C01.key_on_wire_is_the_one_drawn"} ELSE {})
+  \cup (IF "foreignDraws" \in DOMAIN e /\ e.foreignDraws > 0 THEN {"C01.key_source_of_another_connection_used"} ELSE {})
   \cup (IF e.wireLen # hl + 4 + e.n THEN {"C01.frame_length"} ELSE {})
   \cup (IF e.ret # -1 /\ e.ret # e.wireLen THEN {"C01.return_value"} ELSE {})
   \cup (IF e.n <= 512 /\ (Len(e.payload) # e.n \/ Len(e.wire) # e.n \/ (Len(e.head) = hl + 4 /\ e.wire # XorSeq(key, e.payload)))
